@@ -13,8 +13,11 @@ from fractions import Fraction
 
 import numpy as np
 
+import os
+
 import jax
-jax.config.update("jax_enable_x64", True)
+if os.environ.get("VERIF_DEFAULT_MODE") != "1":      # vf/default_mode_probe.py runs the library in its default 32-bit mode
+    jax.config.update("jax_enable_x64", True)
 
 import scico.numpy as snp
 from scico import linop
